@@ -96,6 +96,11 @@ func c07Run(c *Ctx) {
 				why = p.Why
 			}
 		}
+		if why == "" {
+			// a defensive `if another == nil { return false }` in front of the assertion (also inside a shared generic helper)
+			// decides nothing the failed assertion does not decide: dropped when the rest, read for a nil operand, says the same
+			paths = v.guardSpecNorm(paths)
+		}
 		if why != "" {
 			ob.Undecided("body outside the path vocabulary: %s", why)
 			continue
@@ -320,6 +325,65 @@ func c07Loop(c *Ctx, v *sxView, l *LoopRec, par types.Object, own types.Type, ct
 	if l.Range == nil || !v.isRecvSpine(l.Over) {
 		return "the element loop does not range over the receiver's own spine"
 	}
+	// an explicit presence test of the counterpart's entry in front of the comparison — `theirs, found := other.spine[k]; if !found
+	// { return false }` — is structural equality spelled out (a key the other container lacks makes the two unequal, which the
+	// plain form leaves to isEqual(nil)): the absent branch must return false without an effect; the rest is read with the entry
+	if len(l.Iter) == 3 && !ct.IsList {
+		presence := func(t Term) (Term, bool) {
+			pr, ok := t.(TProj)
+			if !ok || pr.K != 1 {
+				return nil, false
+			}
+			ix, ok := pr.X.(TIndex)
+			if !ok || l.Key == nil || !isParamTerm(ix.I, l.Key) {
+				return nil, false
+			}
+			if base, bct := v.spineOf(ix.X); bct != ct || !otherValue(base, par, own) {
+				return nil, false
+			}
+			return ix, true
+		}
+		var rest []*Path
+		absent := 0
+		for _, p := range l.Iter {
+			cds := p.Conds()
+			if len(cds) == 0 {
+				return "loop body is not a single mismatch test"
+			}
+			ix, ok := presence(cds[0].T)
+			if !ok {
+				return "loop body is not a single mismatch test"
+			}
+			if !cds[0].Truth {
+				if len(cds) != 1 || p.End != "return" || len(p.Vals) != 1 || !isConstBoolTerm(simplify(p.Vals[0]), false) || len(p.Effects()) != 0 {
+					return "a key the other container lacks does not make the two unequal"
+				}
+				absent++
+				continue
+			}
+			// drop the presence decision; the looked-up value is the entry
+			q := *p
+			q.Steps = nil
+			dropped := false
+			for _, st := range p.Steps {
+				if !dropped && st.Kind == "cond" && sameTerm(st.Cond.T, cds[0].T) {
+					dropped = true
+					continue
+				}
+				q.Steps = append(q.Steps, st)
+			}
+			rest = append(rest, mapPath(&q, func(t Term) (Term, bool) {
+				if pr, ok := t.(TProj); ok && pr.K == 0 && sameTerm(pr.X, ix) {
+					return ix, true
+				}
+				return nil, false
+			}))
+		}
+		if absent != 1 || len(rest) != 2 {
+			return "loop body is not a single mismatch test"
+		}
+		l = &LoopRec{Range: l.Range, For: l.For, Over: l.Over, Key: l.Key, Value: l.Value, Iter: rest, CondT: l.CondT}
+	}
 	if len(l.Iter) != 2 {
 		return "loop body is not a single mismatch test"
 	}
@@ -373,6 +437,7 @@ func c07R4(c *Ctx) {
 		par := soleParam(c, fd)
 		v := c.view(fd)
 		paths := mergeBoolReturn(c.NewSX().Run(fd)) // `if self.isEqual(x) { return true }; return false` is `return self.isEqual(x)`
+		paths = c07DropNilGuard(c, ct, paths, par)
 		good := len(paths) == 1 && paths[0].Why == "" && paths[0].End == "return" && len(paths[0].Vals) == 1 && len(paths[0].Effects()) == 0
 		if good {
 			call, ok := paths[0].Vals[0].(TCall)
@@ -423,4 +488,84 @@ func c07R4(c *Ctx) {
 		ob.Check(good, "returns self.isEqual(argument)", "Equals does not simply return isEqual of the receiver with its argument")
 	}
 	c.R.Floor("C07.R4", n, 2)
+}
+
+// c07DropNilGuard: `if another == nil { return false }` in front of the delegation is redundant when isEqual itself, applied to nil,
+// returns false on every feasible path without doing anything (its first decision is the test for its own type, which nil fails):
+// isEqual's paths are re-read with the operand bound to nil and the type tests on nil decided.
+func c07DropNilGuard(c *Ctx, ct *Cont, paths []*Path, par types.Object) []*Path {
+	isNilTest := func(cd Cond) (bool, bool) { // (is the test, operand found nil)
+		b, ok := cd.T.(TBin)
+		if !ok || (b.Op != token.EQL && b.Op != token.NEQ) {
+			return false, false
+		}
+		x := b.X
+		if _, isN := b.Y.(TNil); !isN {
+			if _, isN := b.X.(TNil); !isN {
+				return false, false
+			}
+			x = b.Y
+		}
+		if cv, ok := x.(TConv); ok {
+			x = cv.X
+		}
+		if !isParamTerm(x, par) {
+			return false, false
+		}
+		return true, cd.Truth == (b.Op == token.EQL)
+	}
+	guard := -1
+	for i, p := range paths {
+		conds := p.Conds()
+		if len(conds) == 1 && len(p.Effects()) == 0 && p.End == "return" && len(p.Vals) == 1 && isConstBoolTerm(p.Vals[0], false) {
+			if is, nilFound := isNilTest(conds[0]); is && nilFound {
+				guard = i
+			}
+		}
+	}
+	if guard < 0 {
+		return paths
+	}
+	ie := c.Decl("(*" + ct.Named.Obj().Name() + ").isEqual")
+	if ie == nil {
+		return paths
+	}
+	ipar := soleParam(c, ie)
+	a := &armNorm{c: c, mcache: map[*types.Func][]*Path{}, loops: map[*LoopRec]*LoopRec{}}
+	for _, p := range c.NewSX().Run(ie) {
+		if p.Why != "" {
+			return paths
+		}
+		q := mapPath(p, func(t Term) (Term, bool) {
+			if isParamTerm(t, ipar) {
+				return TNil{}, true
+			}
+			return nil, false
+		})
+		q = a.foldStatic(q)
+		if q == nil {
+			continue // infeasible for a nil operand
+		}
+		if q.End != "return" || len(q.Vals) != 1 || !isConstBoolTerm(q.Vals[0], false) || len(q.Effects()) != 0 {
+			return paths
+		}
+	}
+	var out []*Path
+	for i, p := range paths {
+		if i == guard {
+			continue
+		}
+		q := clonePath(p)
+		q.Steps = nil
+		for _, st := range p.Steps {
+			if st.Kind == "cond" {
+				if is, _ := isNilTest(st.Cond); is {
+					continue
+				}
+			}
+			q.Steps = append(q.Steps, st)
+		}
+		out = append(out, q)
+	}
+	return out
 }
